@@ -316,65 +316,60 @@ def type_order(repo, res):
     "in _compute_form_ir exactly the UFL id \"otherwise\" is mapped to -1, ids below -1 are rejected, each "
     "id of a group gets the group's name and domain list, and UFL is told not to append everywhere "
     "integrals to the numbered ones",
-    min_instances=4,
+    min_instances=2,
 )
 def everywhere_id(repo, res):
     rep = repo.mod(REP)
     g = rep.func("_compute_form_ir")
     res.functions.add(g.key)
-    comp = None
-    for n in walk_no_nested(g.node):
-        if isinstance(n, ast.ListComp) and "otherwise" in ast.unparse(n):
-            comp = n
-    key = f"{g.key}:otherwise-map"
-    res.ob(key)
-    if comp is None:
-        res.fail(key, "the mapping of UFL's \"otherwise\" id is gone", rep.line(g.node))
-    else:
-        e = comp.elt
-        ok = False
-        if isinstance(e, ast.IfExp) and isinstance(e.test, ast.Compare) and len(e.test.ops) == 1:
-            var = comp.generators[0].target.id if isinstance(comp.generators[0].target, ast.Name) else None
-            cmpc = e.test.comparators[0]
-            is_other = isinstance(cmpc, ast.Constant) and cmpc.value == "otherwise" and ast.unparse(e.test.left) == var
-            if is_other:
-                neq = isinstance(e.test.ops[0], ast.NotEq)
-                keep, mapped = (e.body, e.orelse) if neq else (e.orelse, e.body)
-                try:
-                    ok = ast.unparse(keep) == var and const_value(mapped) == -1 and isinstance(e.test.ops[0], (ast.NotEq, ast.Eq))
-                except ValueError:
-                    ok = False
-        if not ok:
-            res.fail(key, f"subdomain ids are computed as `{ast.unparse(comp)}`: \"otherwise\" must map to -1 and every other id "
-                     "to itself", rep.line(comp))
-        if comp.generators[0].ifs:
-            res.fail(key, "ids are filtered while being mapped: an integral over several ids loses some", rep.line(comp))
-        if "subdomain_id" not in ast.unparse(comp.generators[0].iter):
-            res.fail(key, "ids do not come from itg_data.subdomain_id", rep.line(comp))
-    key = f"{g.key}:negative-rejected"
-    res.ob(key)
-    ok = False
-    for n in walk_no_nested(g.node):
-        if isinstance(n, ast.If) and isinstance(n.test, ast.Compare) and n.body and isinstance(n.body[-1], ast.Raise):
-            t = ast.unparse(n.test).replace(" ", "")
-            if re.fullmatch(r"min\(\w+\)<-1", t) or re.fullmatch(r"any\(.*<-1.*\)", t):
-                ok = True
-    if not ok:
-        res.fail(key, "ids below -1 are no longer rejected", rep.line(g.node))
-    # per id: name and domain of the same group
+    # the mapping otherwise -> -1 is decided by SUBDOMAIN-IDS (interpreted) and by the interpreted loop below
+    # negative ids: rule SUBDOMAIN-IDS (guard interpreted on samples)
+    # per id: name and domain of the same group - the loop is interpreted on a sample of integral data
     key = f"{g.key}:per-id-name-domain"
     res.ob(key)
-    src = ast.unparse(g.node)
-    need = [r"ir\['subdomain_ids'\]\[integral_type\] \+= subdomain_ids",
-            r"iname = integral_names\[\(?form_id, itg_index\)?\]",
-            r"ir\['integral_names'\]\[integral_type\] \+= \[iname\]",
-            r"ir\['integral_domains'\]\[integral_type\] \+= \[integral_domains\[iname\]\]"]
-    loops = [n for n in walk_no_nested(g.node) if isinstance(n, ast.For) and "range(len(subdomain_ids))" in ast.unparse(n.iter)]
-    if not loops:
-        res.fail(key, "names/domains are not repeated once per subdomain id of the group", rep.line(g.node))
-    for pat in need:
-        if not re.search(pat, src):
-            res.fail(key, f"expected statement matching /{pat}/ in _compute_form_ir", rep.line(g.node))
+    from ..absint import Interp as _Interp, Node as _Node, Raised as _Raised
+    from ..lnodes_model import load_classes as _lc
+
+    loop = None
+    for n in g.node.body:
+        if isinstance(n, ast.For) and "integral_data" in ast.unparse(n.iter):
+            loop = n
+    if loop is None:
+        raise AnalysisError("_compute_form_ir: loop over form_data.integral_data not found")
+    idx = g.node.body.index(loop)
+    pre = [st for st in g.node.body[:idx] if isinstance(st, ast.Assign) and (
+        (isinstance(st.targets[0], ast.Subscript) and ast.unparse(st.targets[0].value) == "ir"
+         and isinstance(st.targets[0].slice, ast.Constant) and st.targets[0].slice.value in ("subdomain_ids", "integral_names", "integral_domains"))
+        or (isinstance(st.targets[0], ast.Name) and st.targets[0].id == "ufcx_integral_types"))]
+    it = _Interp(repo, _lc(repo), primary="ffcx.ir.representation")
+    groups = [("cell", (2, "otherwise")), ("exterior_facet", (7,)), ("cell", (5,)), ("interior_facet", ("otherwise",))]
+    fd = _Node("FormData", integral_data=[_Node("IntegralData", integral_type=t, subdomain_id=ids) for t, ids in groups])
+    env = {"form_data": fd, "ir": {}, "form_id": 0, "integral_names": {(0, k): f"name{k}" for k in range(len(groups))},
+           "integral_domains": {f"name{k}": [f"dom{k}"] for k in range(len(groups))}}
+    it.ctx.append(rep)
+    try:
+        try:
+            it.block(pre + [loop], env)
+        except _Raised as e:
+            res.fail(key, f"_compute_form_ir raises ({e.what}) on a form with integral groups {groups}", rep.line(loop))
+            env = None
+    finally:
+        it.ctx.pop()
+    if env is not None:
+        ir_ = env["ir"]
+        want_ids, want_names, want_doms = {}, {}, {}
+        for k, (t, ids) in enumerate(groups):
+            for sid in ids:
+                want_ids.setdefault(t, []).append(-1 if sid == "otherwise" else sid)
+                want_names.setdefault(t, []).append(f"name{k}")
+                want_doms.setdefault(t, []).append([f"dom{k}"])
+        for fld, want in (("subdomain_ids", want_ids), ("integral_names", want_names), ("integral_domains", want_doms)):
+            got = {t: v for t, v in (ir_.get(fld) or {}).items() if v}
+            if got != want:
+                res.fail(key, f"for integral groups {groups} ir['{fld}'] = {got}, expected {want}: every id of a group must carry that group's kernel name and domains", rep.line(loop))
+        types = list((ir_.get("subdomain_ids") or {}).keys())
+        if types != ["cell", "exterior_facet", "interior_facet", "vertex", "ridge"]:
+            res.fail(key, f"integral types are keyed in the order {types}, not the ufcx.h enum order", rep.line(loop))
     # analysis flag
     an = repo.mod("ffcx.analysis").func("_analyze_form")
     key = f"{an.key}:do_append_everywhere_integrals"
